@@ -360,7 +360,10 @@ def lookup_part(job, r):
         if rng.random() < 0.5:
             pubs.sort()
         certs = rng.sample(w.certs, rng.randint(0, 3))
-        recs = [hdr()] + [cert_rec(x) for x in certs] + [pub_rec(t, h) for t, h in pubs]
+        # certificate ids are whatever the record says (normally the CRC-32 of the certificate): half of the records get ids over a small alphabet that
+        # contains the zero octet, so that ids agree up to a zero octet and differ behind it
+        cert_ids = [(x.id if rng.random() < 0.5 else bytes(rng.choice([0, 1, 0x20, 0xa5]) for _ in range(4)), x) for x in certs]
+        recs = [hdr()] + [T(0x702, [T(1, cid), T(2, x.der)], long=True) for cid, x in cert_ids] + [pub_rec(t, h) for t, h in pubs]
         raw, _, _ = build(recs, w.signer, work)
         q = c('pubfileparse 0 0 ' + raw.hex())
         if q.rc != 0:
@@ -426,13 +429,22 @@ def lookup_part(job, r):
         q = c('pubfilelookup 0 0 bystring %s' % R.pub_string(base - 5, gen.rnd_imprint(rng, 1)))
         if q.get('found') == '1':
             r.viol('lookup:bystring:phantom', 'publication string of an absent publication found', '')
-        ids = [x.id for x in certs]
-        for cid in ids + [bytes(4), gen.rnd_bytes(rng, 4), ids[0][:3] if ids else b'abc', (ids[0] + b'\0') if ids else b'abcde']:
+        ids = [cid for cid, x in cert_ids]
+        near = []
+        for cid in ids:
+            if 0 in cid:
+                z = cid.index(0)
+                if z + 1 < len(cid):
+                    near.append(cid[:z + 1] + bytes((b + 1) & 0xff for b in cid[z + 1:]))      # the same up to and including the zero octet, different behind it
+                near.append(cid[:z] + b'\x01' + cid[z + 1:])
+        for cid in ids + near + [bytes(4), gen.rnd_bytes(rng, 4), ids[0][:3] if ids else b'abc', (ids[0] + b'\0') if ids else b'abcde']:
             q = c('pubfilelookup 0 0 cert %s' % cid.hex())
-            want = [x for x in certs if x.id == cid]
-            r.observe(('cert', bool(want), q.get('found')))
+            want = [x for i2, x in cert_ids if i2 == cid]
+            r.observe(('cert', bool(want), q.get('found'), 0 in cid))
             r.count('lookups')
-            if (q.get('found') == '1') != bool(want) or (want and int(q['dercrc']) != (zlib.crc32(want[0].der) & 0xffffffff)):
+            if 0 in cid:
+                r.count('certificate_lookups_with_zero_octet_in_id')
+            if (q.get('found') == '1') != bool(want) or (want and int(q['dercrc']) not in [zlib.crc32(x.der) & 0xffffffff for x in want]):
                 r.viol('lookup:cert:differs', 'certificate lookup for id %s: found=%s expected %s' % (cid.hex(), q.get('found'), bool(want)), '')
     pool.check_exit(None, r, sess.ex)
 
